@@ -385,6 +385,11 @@ def _Solve_Axb(
     else:
         raise NotImplementedError(f"{solver} is not implemented.")
 
+    if solver in (SolverType.cg, SolverType.bicg, SolverType.gmres, SolverType.lgmres):
+        # scipy's iterative solvers return their last iterate whatever happened (as for petsc above)
+        if output != 0:
+            raise Exception(f"scipy {solver} did not converge (info = {output}).")
+
     tic.Tac("Solver", f"Solve {problemType} ({solver})", simu._verbosity)
 
     # # A x - b = 0
